@@ -12,7 +12,7 @@ for m in ('rtc_dwt', 'rtc_dtcwt', 'rtc_scat', 'rtc_misc'):
         pass
 
 
-def search(fn, cfg, model, budget=200):
+def search(fn, cfg, model, budget=450):
     """the model point first, then a small-size sweep over the obligation's scope"""
     tried = 0
     r = rtc.run_one(fn, cfg, model, 0)
@@ -23,9 +23,9 @@ def search(fn, cfg, model, budget=200):
         for H, W, L2 in itertools.product(range(1, 12), range(1, 12), range(1, 6)):
             if H + W + L2 != total + 3:
                 continue
-            for C in (1, 2):
+            for C, J in ((1, 1), (2, 2), (1, 3)):
                 sizes = dict(model)
-                sizes.update({'H': H, 'W': W, 'N': W, 'L2': L2, 'C': C, 'B': 1})
+                sizes.update({'H': H, 'W': W, 'N': W, 'L2': L2, 'Lc2': L2, 'Lr2': max(1, (L2 + 1) % 4), 'C': C, 'B': 1, 'J': J})
                 r = rtc.run_one(fn, cfg, sizes, tried)
                 tried += 1
                 if r['ok'] is False:
